@@ -475,6 +475,9 @@ func fixedSems(rng *rand.Rand) []Sem {
 	s.Any, s.MAny, s.HStar, s.HAuth, s.Expose, s.MaxAge = true, true, true, true, []string{"*"}, -1
 	out = append(out, s) // anonymous allow-all, everything wildcarded
 	s = base()
+	s.Any, s.Pats, s.Expose, s.Meths = true, []cPattern{ex, {Scheme: "https", Wild: true, Host: "listed.example.org", Port: anyPort}}, []string{"x-exposed"}, []string{"PUT"}
+	out = append(out, s) // allow-all in which `*` stands among discrete patterns
+	s = base()
 	s.Pats, s.Cred, s.Meths, s.HNames, s.HAuth, s.Expose, s.MaxAge, s.Status = []cPattern{ex, wild}, true, []string{"PUT", "DELETE"}, []string{"authorization", "x-a", "x-b"}, true, []string{"x-a", "x-exposed"}, 600, 200
 	out = append(out, s) // credentialed, discrete everything
 	s = base()
@@ -587,6 +590,7 @@ func wrapEarly(m *cors.Middleware) {
 // handlerFor returns the handler a request goes through: one of the two early-wrapped ones (in alternation, so that both have
 // served before and after every state change) or a fresh Wrap.
 func handlerFor(m *cors.Middleware, spy http.Handler) http.Handler {
+	lastMW.Store(m)
 	if ew := earlyWrapped[m]; ew != nil {
 		ew.inner = spy
 		ew.n++
@@ -711,7 +715,7 @@ func emitServe(t *tracer, m *cors.Middleware, dbg bool, rs reqSpec, pre http.Hea
 			}
 		case <-time.After(10 * time.Second):
 			hung = true
-			t.emit(map[string]any{"ev": "Hang", "m": rs.Method, "req": hdrJSON(rs.H), "dbg": dbg,
+			t.emit(map[string]any{"ev": "Hang", "by": "handler", "reqhang": true, "m": rs.Method, "req": hdrJSON(rs.H), "dbg": dbg,
 				"what": "a handler that calls Config / SetDebug / Reconfigure(Config()) on its own middleware never returned (10 s)"})
 			return false
 		}
@@ -906,6 +910,14 @@ func cmdServe(args []string) {
 	t.emit(map[string]any{"ev": "Names", "names": allNames})
 	var served, rejected, panics, preflights, processed, reused int
 	var samples []any
+	t.watchdog(20*time.Second, func(h map[string]any) {
+		t.emit(h)
+		t.emit(map[string]any{"ev": "EndBlock"})
+		writeJSON(*out, map[string]any{"served": served, "configs": processed, "reused": reused, "rejected": rejected, "panics": panics,
+			"preflights": preflights, "events": t.n, "samples": samples, "hung": true, "hang": h["what"]})
+		t.close()
+		os.Exit(0)
+	})
 	// ONE long-lived middleware is taken from configuration to configuration with Reconfigure (every other configuration gets a
 	// new one), having served the previous configurations' requests; the first and last requests of the next block are a
 	// sample of the previous block's: what a middleware did under an earlier configuration must not show
